@@ -6,7 +6,7 @@ for d in /verif/seeded/*/; do
   [ -f $d/confirm.log ] && grep -q "^RESULT" $d/confirm.log && continue
   wt=/tmp/wt_confirm_$id
   git -C /repo worktree remove --force $wt 2>/dev/null
-  base=$BASE; [ "$id" = "C06-a" ] && base=HEAD; case "$id" in *-b) base=${BASE_B:-7c57eb8};; esac
+  base=$BASE; [ "$id" = "C06-a" ] && base=HEAD; case "$id" in *-b) base=${BASE_B:-7c57eb8};; esac; mb=$(python3 -c "import json,sys; print(json.load(open(sys.argv[1])).get('base',''))" $d/meta.json 2>/dev/null); [ -n "$mb" ] && base=$mb
   git -C /repo worktree add -q --detach $wt $base || continue
   (
     cd $wt
